@@ -45,6 +45,26 @@ def run(tier, corrupt=0):
         e = json.loads(lines[corrupt])
         e["calls"][0][1] = "panic: injected by the self-test"
         lines[corrupt] = json.dumps(e)
+    # panics seen by the recorders of the other topics are C04's business too (their own checks skip such events)
+    other_panics = []
+    for topic, args in (("tz", ["--zones", 16 if tier == "quick" else 200, "--transitions", 3]),
+                        ("iter", ["--mode", "bounds", "--n", 300 if tier == "quick" else 5000, "--work-budget", 4_000_000]),
+                        ("dayeval", ["--mode", "random", "--n", 200 if tier == "quick" else 5000, "--days", 8])):
+        path = os.path.join(vlib.WORK, "c04_other_%s.ndjson" % topic)
+        vlib.ohv(["record", topic, "--seed", c.seed] + args, stdout_path=path, timeout=7200)
+        nev = 0
+        for l in open(path):
+            e = json.loads(l)
+            nev += 1
+            ps = ([e["panic"]] if "panic" in e else []) + [p.get("panic") for p in e.get("panics", [])]
+            for p_ in ps:
+                other_panics.append((topic, p_, e))
+        c.add("evaluations", nev)
+    for topic, p_, e in other_panics[:40]:
+        c.mismatch("panic seen while recording the %s trace: %s (%s)" % (topic, str(p_)[:150], json.dumps(
+            {k: e.get(k) for k in ("src", "zone", "t_utc", "from", "to", "t", "input_zone") if k in e})[:300]),
+            {"topic": topic, "panic": p_, "event": {k: e.get(k) for k in ("src", "zone", "t_utc", "from", "to", "t", "input_zone", "ctx")}})
+    c.setv("panics_in_other_traces", len(other_panics))
     res, mism, acc = vlib.validate_traces("Trace_Totality", vlib.shard_lines(lines, 16, "c04_shard"), heap="3g")
     if acc != len(lines):
         raise vlib.ToolError("Trace_Totality consumed %d of %d events" % (acc, len(lines)))
